@@ -141,8 +141,8 @@ type Interp struct {
 	// it are not interpreted on abstract arguments.
 	Module string
 	// Edge is called on every control transfer inside the interpreted functions.
-	Edge func(in *Interp, fr *Frame, from, to *ssa.BasicBlock) bool
-	ncell   int
+	Edge  func(in *Interp, fr *Frame, from, to *ssa.BasicBlock) bool
+	ncell int
 }
 
 func NewInterp(prog *ssa.Program, o *Oracle) *Interp {
@@ -278,7 +278,7 @@ func (in *Interp) CallFn(fn *ssa.Function, args []Val, bind []Val, site ssa.Inst
 	}
 	// library code is interpreted on concrete arguments only; on abstract ones
 	// its result is an opaque symbolic value named after the call
-	if in.Module != "" && !inModule(fn, in.Module) && !allConcrete(args) {
+	if in.Module != "" && !inModule(fn, in.Module) && !allConcrete(args) && !(containerAlgo(fn) && shapeConcrete(args)) {
 		if r, ok := in.extern(fn, args, site); ok {
 			return r
 		}
@@ -1216,6 +1216,35 @@ func inModule(fn *ssa.Function, mod string) bool {
 	}
 	if fn.Parent() != nil {
 		return inModule(fn.Parent(), mod)
+	}
+	return true
+}
+
+// containerAlgo: the generic algorithms of packages slices and maps only walk
+// their container and hand the elements to the caller's function or to ==;
+// they are interpreted whenever the container itself is known, whatever the
+// elements are.
+func containerAlgo(fn *ssa.Function) bool {
+	o := fn
+	if fn.Origin() != nil {
+		o = fn.Origin()
+	}
+	if o.Pkg == nil {
+		return false
+	}
+	switch o.Pkg.Pkg.Path() {
+	case "slices", "maps":
+		return true
+	}
+	return false
+}
+
+func shapeConcrete(args []Val) bool {
+	for _, a := range args {
+		switch a.(type) {
+		case *Sym, Top, *Global:
+			return false
+		}
 	}
 	return true
 }
